@@ -299,6 +299,10 @@ func addCrashOps(r *core.Rand, sc *core.Scenario) {
 		c := &CrashOp{Replica: r.Intn(8), Point: "hook"}
 		if r.Chance(1, 4) {
 			c.Point = crashPoints[r.Intn(len(crashPoints))]
+		} else if r.Chance(1, 4) {
+			// Inside a Prune that runs concurrently with the block commit (one pruned version has
+			// 2 or 3 hook hits).
+			c.Point, c.PruneAt, c.Hit = "prunehook", r.Range(1, 4), r.Pick([]int{6, 3, 1})*3+r.Range(1, 3)
 		} else {
 			switch r.Intn(6) {
 			case 0:
